@@ -4,6 +4,7 @@ import KitModel.NoPanicEnc
 import KitModel.NoPanicKW
 import KitModel.NoPanicReflect
 import KitModel.NoPanicDecode
+import KitModel.NoPanicPrefix
 /-!
 Driver for property C07: `kitdrv C07` reads one op per line and answers with the outcome class
 (and the values) the Lean models compute:
@@ -19,6 +20,9 @@ Driver for property C07: `kitdrv C07` reads one op per line and answers with the
   hook f=<ty> t=<ty> empty=<0|1> pd=<0|1> pi=<0|1> cast=<0|1> q=<0|1>             → `ok` | `err` | `panic`  (metadata hook chain)
   normalize v=<Val>   Val ::= s | l[Val,…] | m{Val,…} | a{<0|1>:Val,…}                  → `ok` | `err`   (config.Normalize)
   dstail tk=<kind> str=<0|1> impl=<0|1> isptr=<0|1> pimpl=<0|1> dok=<0|1> pok=<0|1>     → `ok` | `err` | `panic` (decodeString behind `f.Kind() == String`)
+  uncap s=<hex> lo=<r:l,…>                      → `ok <hex>` | `panic <why>`   (config.uncapitalize; `lo` = unicode.ToLower as a table, identity elsewhere)
+  prefixed kind=<ms|m|mi|other> prefix=<hex> keys=<K,…> lo=<r:l,…>   K ::= k<hex> | n (non-string key)
+                                                → `ok <k<hex>,…>` (sorted set of converted keys) | `err` | `panic <why>`   (config.PrefixedBy)
      RV ::= zero | nil:<ptr|iface|map|slice|func|chan> | ptr(RV) | iface(RV) | leaf:<kind>
 -/
 namespace Driver.C07
@@ -99,6 +103,33 @@ partial def parseVal (cs : List Char) : Option (Val × List Char) :=
   | 'a' :: '{' :: rest => (items rest '}' true []).map fun (xs, r) => (.mapAny xs, r)
   | _ => none
 
+/-- `r:l,r:l,…` → `unicode.ToLower` restricted to the runes the harness computed it for -/
+def parseLower (s : String) : Option (Prefix.Rune → Prefix.Rune) :=
+  if s == "" then some id
+  else
+    let pairs := (s.splitOn ",").mapM fun w =>
+      match w.splitOn ":" with
+      | [a, b] => match a.toInt?, b.toInt? with
+        | some x, some y => some (x, y)
+        | _, _ => none
+      | _ => none
+    pairs.map fun ps => fun r => match ps.find? (·.1 == r) with
+      | some p => p.2
+      | none => r
+
+/-- `k<hex>` = string key, `n` = a key that is not a string -/
+def parseKeys (s : String) : Option (List (Option Bytes)) :=
+  if s == "" then some []
+  else (s.splitOn ",").mapM fun w =>
+    match w.toList with
+    | 'n' :: [] => some none
+    | 'k' :: rest => (fromHexChars rest).map some
+    | _ => none
+
+def showKeys (ks : List Bytes) : String :=
+  let hs := (ks.map fun k => "k" ++ toHex k).eraseDups
+  ",".intercalate (hs.mergeSort fun a b => decide (a ≤ b))
+
 def step (_ : Unit) (line : String) : Unit × String :=
   let l := parseLine line
   let ans : String :=
@@ -172,6 +203,23 @@ def step (_ : Unit) (line : String) : Unit × String :=
       match l.nat? "n", l.nat? "intact" with
       | some n, some i => showOutcome (fun (k : Nat) => toString k) (KW.unwrap n (i == 1))
       | _, _ => "bad-request"
+    | "uncap" =>
+      match l.hex? "s", parseLower ((l.get? "lo").getD "") with
+      | some s, some lo => showOutcome toHex (Prefix.uncapitalize lo s)
+      | _, _ => "bad-request"
+    | "prefixed" =>
+      match l.hex? "prefix", parseKeys ((l.get? "keys").getD ""), parseLower ((l.get? "lo").getD "") with
+      | some pre, some ks, some lo =>
+        let inp : Option Prefix.Input := match l.get? "kind" with
+          | some "ms" => some (.mapStrStr (ks.filterMap id))
+          | some "m" => some (.mapStrAny ((ks.filterMap id).map fun k => (k, .scalar)))
+          | some "mi" => some (.mapAnyAny (ks.map fun k => (k, .scalar)))
+          | some "other" => some (.other .scalar)
+          | _ => none
+        match inp with
+        | some inp => showOutcome showKeys (Prefix.prefixedBy lo inp pre)
+        | none => "bad-request"
+      | _, _, _ => "bad-request"
     | "ptrprefix" =>
       match (l.get? "v").bind fun v => parseRV 64 v.toList with
       | some (rv, []) =>
